@@ -501,3 +501,24 @@ proof fn lemma_reach_r(d: DFA, g: Stages)
 }
 
 } // verus!
+verus! {
+
+/// the built table uses only symbol ids the original table uses
+proof fn lemma_wf_kept(d: DFA, g: Stages, r: DFA)
+    requires quot_ok(d, g), dfa_wf(d), r.transitions@ == g.tabf, r.inputs == d.inputs
+    ensures dfa_wf(r)
+{
+    reveal(t1_ok);
+    lemma_t2(d, g);
+    lemma_t3(d, g);
+    lemma_tabf(d, g);
+    assert forall|q: u32, id: InpId| #[trigger] used(r, q, id) implies 0 <= ix_of(id) < r.inputs@.len() by {
+        assert(cell_in(g.tabf, q, id));
+        let (q0, x0) = choose|q0: u32, x0: u32| #[trigger] has(g.t3, q0, id, x0) && g.f[q0] == q;
+        assert(has(g.t1, q0, id, x0));
+        let m = choose|m: int| 0 <= m < g.t1.len() && #[trigger] tr_is(g.t1[m], q0, id, x0);
+        assert(used(d, g.t1[m].from, g.t1[m].input));
+    }
+}
+
+} // verus!
